@@ -216,6 +216,7 @@ def bounded(tier, seed):
 
 def main(tier, write_baseline=False):
     run = Run("C06", tier, "other", checker_cmd=common.checker_cmd("C06", tier))
+    run.confirm_abstracted = ('optional-iff-not-required',)  # refutations of these exact contracts count only with an input that fails on the real code (report.Run.violation)
     run.trusted_base.update(["cddvc E1 (records with presence bits, Seq view of `required`)", "z3 5.1"])
     refuted = e1.run_contracts(run, "contracts.C06")
     # the parse half of the round-trip clause: json_schema_property_to_param writes the real json_type2typ of the schema type and
